@@ -425,6 +425,18 @@ class Exec:
         if s.value is None:
             return  # bare annotation: no effect
         v = self.eval(ctx, st, s.value)
+        # `name: List[str] = []`: the annotation of a freshly built local list is used as a CHECKED claim: every
+        # append to that list object must store a value of the element type (obligation at the append), and reads
+        # of its elements may then assume the type.  Other annotations stay dropped.
+        a = s.annotation
+        if (v.k == "ref" and isinstance(s.value, (ast.List, ast.Call)) and isinstance(a, ast.Subscript)
+                and isinstance(a.value, ast.Name) and a.value.id in ("List", "list")
+                and isinstance(a.slice, ast.Name) and a.slice.id in ("str", "int")
+                and z3.is_const(v.t) and v.t.decl().name().startswith("new!")):
+            from . import types as T
+            v.ety = T.parse(a.slice.id)
+            v.eguard = None
+            st.ghost["$annotated_lists"] = dict(st.ghost.get("$annotated_lists", {}), **{v.t.decl().name(): v.ety})
         self.assign_target(ctx, st, s.target, v)
 
     def s_Assign(self, ctx, st, s):
